@@ -53,15 +53,30 @@ FAMILIES = {
     "print": 'print("p $.csvpath.line_number $.headers.0")',
     "stats": '@mx = max(#2)',
     "strings": 'push("u", upper(#0))',
+    # functions that share a class with a sibling (the factory builds them with an extra argument)
+    "median": '@md = median(#2, "line")',
+    "average": '@av = average(#2, "line")',
+    "min": '@mn = min(#2)',
+    "sum": '@s = sum(#2)',
+    "tally": 'tally(#0)',
 }
 FAMILY_PAIRS = [(a, b) for a in FAMILIES for b in FAMILIES if a != b]
+# a family after itself: whatever the first resolution of a function leaves behind in the process must not change the second
+SAME_FAMILY = [(a, a) for a in FAMILIES]
+
+
+def family_pair(seed, j):
+    """the j-th family case of a run: first every family after itself, then the ordered pairs of different families"""
+    if j < len(SAME_FAMILY):
+        return SAME_FAMILY[j]
+    return FAMILY_PAIRS[(j + seed) % len(FAMILY_PAIRS)]
 
 
 def gen_case(seed, i):
     r = rng(seed, "jobs", i)
     jobs = [gen_job(r) for _ in range(r.randint(2, 6))]
     if i % 3 == 0:
-        a, b = FAMILY_PAIRS[(i // 3 + seed) % len(FAMILY_PAIRS)]
+        a, b = family_pair(seed, i // 3)
         for job, fam in ((jobs[0], a), (jobs[1], b)):
             recs = [["a", "b", "n", "c"]] + [[r.choice(["x1", "abc", "Fish"]), str(k), str(r.randint(0, 9)),
                                               r.choice(["2024-01-05 10:00 EST", "2024-02-01", "3 Jan 2021 PST"])] for k in range(r.randint(2, 4))]
